@@ -11,6 +11,7 @@ import (
 	"math/big"
 	"reflect"
 	"sort"
+	"strings"
 	"sync"
 
 	"probe/graph"
@@ -142,6 +143,9 @@ func buildCustomTable() (*customTable, error) {
 			return nil, fmt.Errorf("ComplexityRoot has no member %s", obj)
 		}
 		for _, f := range td.Fields {
+			if canon(obj+"."+f.Name) != obj+"."+f.Name {
+				continue // configured through the member of the field it shares a Go field with
+			}
 			ff, ok := of.Type.FieldByName(goName(f.Name))
 			if !ok {
 				return nil, fmt.Errorf("ComplexityRoot.%s has no member %s (for field %s)", obj, goName(f.Name), f.Name)
@@ -224,6 +228,14 @@ func someValue(t reflect.Type) reflect.Value {
 	switch t.Kind() {
 	case reflect.Ptr:
 		p := reflect.New(t.Elem())
+		if t.Elem().Kind() == reflect.Struct && strings.HasSuffix(t.Elem().PkgPath(), "c14model") {
+			// this check's own models: one element in every list so that nested fields execute
+			for i := 0; i < t.Elem().NumField(); i++ {
+				if f := p.Elem().Field(i); f.Kind() == reflect.Slice {
+					f.Set(someValue(f.Type()))
+				}
+			}
+		}
 		if t.Elem().Kind() == reflect.String {
 			p.Elem().SetString("s")
 		}
